@@ -56,7 +56,7 @@ var propMeta = map[string]meta{
 		Level:       "exploration",
 		Rule:        "one run = 2-6 concurrent tunnels (websocket and legacy) doing setup, data in both directions (host keeps streaming 2-9 writes), then per tunnel one of: nothing, CLOSE_CHANNEL while the host is still sending, an out-of-phase packet while the host is still sending, abrupt client disconnect (EOF or reset), keep-alives between data packets; 2-5 stalls hold gateway writes mid-message (slow client / slow host) or delay deliveries; interleaving chosen by the tape. Two batches: a plain build (2000 runs) and a race-detector build (240 runs, one run per process, simulator shims invisible to the detector: //go:norace + RaceDisable, discarding logger so that the log mutex does not order goroutines). Violations: a race report in which both accesses have a frame of the repository; a fatal error or unrecovered panic (process death, e.g. concurrent map writes, gorilla's concurrent-write panic); a torn or interleaved websocket frame / packet seen by a client-side deframer, a malformed or foreign DATA payload; non-trivial = >=2 tunnels received host data; distinct = journal shape",
 		Components:  comp(nil, nil),
-		Assumptions: append([]string{"the race detector only reports races that occur in the explored executions; the simulator widens the windows (a write held for many scheduler steps) but does not enumerate them", "RWMutex is simulated as an exclusive lock"}, commonAssumptions...),
+		Assumptions: append([]string{"the race detector only reports races that occur in the explored executions; the simulator widens the windows (a write held for many scheduler steps) but does not enumerate them", "sync.RWMutex of the repository is simulated with reader/writer semantics and the same race-detector annotations as the original"}, commonAssumptions...),
 	},
 	"C06": {
 		Level:       "exploration",
